@@ -48,12 +48,21 @@ def h_promax(B, p=3, m=2, power=2, cplx=False):
         B.eq("power 1: phi == I", phi, np.eye(m))
 
 
-def h_rotator(B, cls="EOF", n=4, p=3, k=2, power=1, flags=None):
+def h_rotator(B, cls="EOF", n=4, p=3, k=2, power=1, flags=None, refit=False):
     flags = dict(flags or {})
     cplx = cls == "ComplexEOF"
     X = da2d(B, "x", n, p, cplx)
     base = M.single(cls, n_modes=p if n > p else k, solver="full", **flags).fit(X, "time")
-    rot = M.rotate(base, n_modes=k, power=power)
+    if refit:
+        # the rotator object has been fitted on another model before: everything below must hold for its second fit as well
+        import xeofs.single as xs_
+
+        other = M.single(cls, n_modes=p if n > p else k, solver="full", **flags).fit(da2d(B, "z", n, p, cplx), "time")
+        rot = getattr(xs_, type(base).__name__ + "Rotator")(n_modes=k, power=power)
+        rot.fit(other)
+        rot.fit(base)
+    else:
+        rot = M.rotate(base, n_modes=k, power=power)
     B.covers(f"{type(rot).__name__}._fit_algorithm")
     rec_rot = rot.inverse_transform(rot.scores())
     rec_base = base.inverse_transform(base.scores().sel(mode=slice(1, k)))
@@ -106,6 +115,7 @@ def configs(tier):
     add("h_rotator", "EOFRotator|power1|standardize", cls="EOF", power=1, flags={"standardize": True})
     # three rotated modes: the re-ordering after rotation can be any of the 6 permutations (incl. the two 3-cycles)
     add("h_rotator", "EOFRotator|power1|n5p3k3", cls="EOF", power=1, n=5, p=3, k=3)
+    add("h_rotator", "EOFRotator|power1|n5p3k3|second fit of the rotator object", cls="EOF", power=1, n=5, p=3, k=3, refit=True)
     add("h_cross_rotator", "MCARotator|power1", options={"full_rank": True})
     add("h_cross_rotator", "CPCCARotator|alpha=0.5|power1", options={"full_rank": True}, cls="CPCCA", alpha=0.5)
     add("h_cross_rotator", "MCARotator|power2", options={"full_rank": True}, power=2)  # the oblique branch (R^-H) of the cross-set rotators
